@@ -294,7 +294,7 @@ class Enumerator:
 
     def pred(self, inst, mname):
         fn = self.px.method(inst["__class__"], mname)
-        body = [s for s in fn.body if not (isinstance(s, ast.Expr) and isinstance(s.value, ast.Constant))]
+        body = [s for s in fn.body if not (isinstance(s, ast.Expr) and isinstance(s.value, ast.Constant)) and not isinstance(s, ast.Pass)]
         if len(body) != 1 or not isinstance(body[0], ast.Return):
             raise AnalysisError(f"C02: predicate {inst['__class__']}.{mname} is not a single return expression")
         return self.pexpr(inst, body[0].value)
